@@ -12,6 +12,7 @@ import ast
 
 from ..cfg import CFG, calls_in, own_stmt_part
 from ..loader import norm, AnalysisError, target_names
+from ..poly import P
 
 RT = "pysnark.runtime"
 STATE = ("guard", "_ignore_errors", "LinComb.ONE")
@@ -239,11 +240,21 @@ def rule_release(repo, rule, include_clients=False, skip_field_tokens=False):
                                    "token stored in object field `%s`: released only by another method, so an exception "
                                    "raised between acquisition and that call leaves guard, error suppression and "
                                    "LinComb.ONE switched" % fld, "%s/field" % fi.fq)
+                elif isinstance(s, ast.Expr) and isinstance(s.value, ast.Call) and isinstance(s.value.func, ast.Attribute) \
+                        and s.value.func.attr == "append" and len(s.value.args) == 1 and s.value.args[0] is c \
+                        and isinstance(s.value.func.value, ast.Attribute) and _cm_release(repo, fi, s.value.func.value, stack=True) is not None:
+                    # self.F.append(add_guard(..)) in __enter__, restore_guard(self.F.pop()) in __exit__: a stack of tokens, so
+                    # that one manager object can be entered recursively
+                    why = _cm_release(repo, fi, s.value.func.value, stack=True)
+                    if why.startswith("ok:"):
+                        rule.ok(where, fi.fq, norm(s), why[3:])
+                    else:
+                        rule.violation(where, fi.fq, norm(s), why, "%s/cm" % fi.fq)
                 else:
                     rule.violation(where, fi.fq, norm(s), "token returned by add_guard is discarded", "%s/discard" % fi.fq)
 
 
-def _cm_release(repo, fi, target):
+def _cm_release(repo, fi, target, stack=False):
     """A token stored in `self.F` by `__enter__` of a class whose `__exit__` releases `self.F` first and on every path,
     the class being used in `with` statements only: the context-manager protocol guarantees the release.
     None: not this shape.  'ok:...' or a violation message."""
@@ -262,16 +273,30 @@ def _cm_release(repo, fi, target):
         if st is None or cfg.kind[n] not in ("stmt", "test", "loop"):
             continue
         for cc in calls_in(own_stmt_part(st, cfg.kind[n])):
-            if callee_name(cc) == "restore_guard" and cc.args and norm(cc.args[0]) == "%s.%s" % (ex.params[0], fld):
+            if callee_name(cc) == "restore_guard" and cc.args and norm(cc.args[0]) == (
+                    "%s.%s.pop()" if stack else "%s.%s") % (ex.params[0], fld):
                 rel.add(n)
+    if stack:
+        # the field is a list created empty by __init__ and touched by nothing but this push and that pop
+        others = [x for mi in fi.cls.methods.values() for x in ast.walk(mi.node) if isinstance(x, ast.Attribute) and x.attr == fld]
+        init = fi.cls.methods.get("__init__")
+        inits = [a for a in (ast.walk(init.node) if init is not None else []) if isinstance(a, ast.Assign) and len(a.targets) == 1
+                 and isinstance(a.targets[0], ast.Attribute) and a.targets[0].attr == fld and norm(a.value) in ("[]", "list()")]
+        if len(inits) != 1 or len(others) != 3:
+            return "the token stack `%s` is not a private list (created empty in __init__, pushed in __enter__, popped in __exit__)" % fld
     if not rel:
         return "__exit__ does not release the token kept in `%s`" % fld
     reach = cfg.reach_avoiding(cfg.entry, rel)
     if cfg.exit in reach or cfg.rexit in reach:
         return "__exit__ can return or raise before the token kept in `%s` is released" % fld
-    # __exit__ must not swallow nothing relevant here; the class must only be used as `with C(...)`
+    # the protocol runs __exit__ for every __enter__ it ran; anybody calling __enter__ by hand is outside that guarantee.  When
+    # nobody does, other uses of the class (as a decorator through __call__, say) never acquire through __enter__.
     cname = fi.cls.name
-    for m in list(repo.modules.values()):
+    # A single-slot token field is overwritten when the SAME manager object is entered again while active (a recursive guarded
+    # function): such a class must be instantiated afresh by every `with C(...)`.  A stack of tokens is re-entrant, so the
+    # object may be kept and re-used (as a decorator object, say).
+    by_hand = [x for m in repo.modules.values() for x in ast.walk(m.tree) if isinstance(x, ast.Attribute) and x.attr == "__enter__"]
+    for m in (list(repo.modules.values()) if (by_hand or not stack) else []):
         withs = {id(it.context_expr.func) for w in ast.walk(m.tree) if isinstance(w, ast.With) for it in w.items
                  if isinstance(it.context_expr, ast.Call)}
         for n in ast.walk(m.tree):
@@ -439,14 +464,39 @@ def rule_conjunction(repo, rule):
                 ("nested in g, another condition", {"none": False, "same": False}, ("guard & %s" % cond, "%s & guard" % cond)),
                 ("nested in g, the condition is g itself", {"none": False, "same": True},
                  ("guard", cond, "guard & %s" % cond, "%s & guard" % cond, "guard & guard")))
+        def _is_product_conjunction(e):
+            """the conjunction of two bits as their product: `guard * cond` (a wire product, tied by LinComb.__mul__), or a fresh
+            witness hinted with guard.value * cond.value that some emission of add_guard ties as guard * cond = <that wire>"""
+            from ..poly import poly_of as _po
+            if norm(e) in ("guard * %s" % cond, "%s * guard" % cond):
+                return True
+            if isinstance(e, ast.Call) and norm(e.func).split(".")[-1] in ("PrivVal", "PrivValBool") and len(e.args) == 1:
+                G, C = P.sym("g"), P.sym("c")
+                hp = _po(e.args[0], {"guard.value": G, "%s.value" % cond: C}, strict=True)
+                if hp is None or hp != G * C:
+                    return False
+                holders = {a.targets[0].id for a in ast.walk(ag.node) if isinstance(a, ast.Assign) and len(a.targets) == 1
+                           and isinstance(a.targets[0], ast.Name) and a.value is e}
+                if isinstance(v, ast.Name):
+                    holders.add(v.id)
+                for c_ in ast.walk(ag.node):
+                    if isinstance(c_, ast.Call) and norm(c_.func).split(".")[-1] in ("add_constraint", "add_constraint_unsafe") and len(c_.args) >= 3:
+                        env_ = {"guard": G, cond: C}
+                        for h_ in holders:
+                            env_[h_] = P.sym("n")
+                        ps = [_po(x, env_, strict=True) for x in c_.args[:3]]
+                        if None not in ps and ps[0] * ps[1] - ps[2] == G * C - P.sym("n"):
+                            return True
+            return False
         sem_ok, sem_why, seen_any = True, "", False
         for pth in _pt8(ag.node, s) or []:
             for label, facts, allowed in scen:
                 if any(_pe(t_, facts) is not None and _pe(t_, facts) != pol_ for t_, pol_ in pth.conds):
                     continue          # this path is not taken in this scenario
                 seen_any = True
-                got = norm(_fold(vres, facts))
-                if got not in allowed:
+                gotn = _fold(vres, facts)
+                got = norm(gotn)
+                if got not in allowed and not (facts["none"] is False and _is_product_conjunction(gotn)):
                     sem_ok, sem_why = False, "%s: the new guard is `%s`, expected %s" % (label, got, " or ".join("`%s`" % a for a in allowed))
         if seen_any and sem_ok:
             rule.ok(where, ag.fq, "guard <- %s" % norm(vres)[:100], "the condition alone / conjunction with the enclosing guard / the guard itself when the condition is that guard")
